@@ -24,6 +24,12 @@ func genC18WS(r *R, sc *Scenario) {
 	for i := 0; i < n; i++ {
 		s.Out = append(s.Out, simos.OutChunk{AtMs: 200 + i*gap, Stream: 1, Data: fmt.Sprintf("w/%d\n", i)})
 	}
+	if r.P(450) {
+		// now and then an empty line
+		for i := 3; i < n; i += Pick(r, 4, 7, 50) {
+			s.Out[i].Data += "\n"
+		}
+	}
 	sc.Scripts["w"] = &TokenScript{Launches: []simos.Script{s}}
 	two := r.P(350)
 	if two {
@@ -43,7 +49,10 @@ func genC18WS(r *R, sc *Scenario) {
 		}
 		f := WSFollower{Name: fmt.Sprintf("f%d", i), Proc: proc, Offset: Pick(r, 0, 1, 5, 50, 300), AtMs: Pick(r, 0, 100, 200+n*gap/3, 200+n*gap/2),
 			Mode: Pick(r, "read", "read", "read", "stall", "disconnect"), BufBytes: Pick(r, 256, 4096, 65536)}
-		if f.Mode != "read" {
+		if f.Mode == "read" && len(strings.Split(proc, ",")) == 1 && r.P(450) {
+			f.Mode = "lib" // through the client library's LogClient
+		}
+		if f.Mode != "read" && f.Mode != "lib" {
 			f.After = Pick(r, 0, 1, 10, 50)
 			f.StallMs = Pick(r, -1, -1, 2000)
 		}
@@ -65,9 +74,10 @@ func checkC18WS(sc *Scenario, res *RunResult, t *Truth) []Violation {
 	}
 	// what each process wrote, in order
 	type written struct {
-		lines []string
-		idx   map[string]int
-		seqs  []int
+		lines   []string
+		idx     map[string]int
+		seqs    []int
+		empties int
 	}
 	procs := map[string]*written{}
 	for _, p := range sc.Project.Procs {
@@ -75,6 +85,10 @@ func checkC18WS(sc *Scenario, res *RunResult, t *Truth) []Violation {
 		for _, in := range t.ByRep[p.Name] {
 			for _, wr := range in.Writes {
 				for _, ln := range splitLines(wr.Text) {
+					if ln == "" {
+						w.empties++ // not unique: they travel, but nothing is demanded of them
+						continue
+					}
 					w.idx[ln] = len(w.lines)
 					w.lines = append(w.lines, ln)
 					w.seqs = append(w.seqs, wr.Seq)
@@ -183,7 +197,7 @@ func checkC18WS(sc *Scenario, res *RunResult, t *Truth) []Violation {
 				}
 				prev = j
 			}
-			if first >= 0 && !anyStall && len(strings.Split(f.spec.Proc, ",")) == 1 {
+			if first >= 0 && !anyStall && len(strings.Split(f.spec.Proc, ",")) == 1 && w.empties == 0 { // (empty lines take places in a tail)
 				// the subscription took place between the dial and the first message: the log held
 				// between wLo and wHi lines then (whole fake instants, so that the reader's own lag
 				// does not matter), and the tail starts offset lines before its end
@@ -213,7 +227,7 @@ func checkC18WS(sc *Scenario, res *RunResult, t *Truth) []Violation {
 					return vs
 				}
 			}
-			if f.spec.Mode == "read" && len(w.lines) > 0 && writtenBefore(f.open) < len(w.lines) && !anyStall {
+			if (f.spec.Mode == "read" || f.spec.Mode == "lib") && len(w.lines) > 0 && writtenBefore(f.open) < len(w.lines) && !anyStall {
 				if prev != len(w.lines)-1 {
 					last := "nothing"
 					if prev >= 0 {
